@@ -81,6 +81,10 @@ private:
 
 template< class Function, class... Args>
    ManagedThread::ManagedThread( Function&& f, Args&&... args):
+      std::thread()
+{
+   // start the thread only now, when mActive is initialised
+   std::thread::operator =(
       std::thread( [ func = std::forward< Function>( f), flag = &mActive]
                    ( Args&&... lbd_args)
                      noexcept( noexcept( f( std::forward< Args>( lbd_args)...)))
@@ -89,8 +93,7 @@ template< class Function, class... Args>
                       func( std::forward< Args>( lbd_args)...);
                       flag->store( false, std::memory_order_release);
                    },
-                   std::forward< Args>( args)...)
-{
+                   std::forward< Args>( args)...));
 } // ManagedThread::ManagedThread
 
 
